@@ -42,7 +42,15 @@ def _case(draw, tier):
         tset = dict(tset, t0=tset["t0"] + shift, t1=tset["t1"] + shift)
     return {"spec": spec, "method": method, "levy": levy, "time": tset,
             "outs": draw(st.lists(st.floats(0.01, 0.99), min_size=0, max_size=3)),
-            "entropy": draw(st.integers(0, 2 ** 31 - 2)), "adaptive": draw(st.sampled_from([False, False, True]))}
+            "entropy": draw(st.integers(0, 2 ** 31 - 2)), "adaptive": draw(st.sampled_from([False, False, True])),
+            # logqp=True: the log-ratio output is part of what sdeint returns for the declared SDE; it must agree between
+            # the two declarations as well (scalar / additive only: a diagonal declaration takes one more Brownian channel
+            # under logqp); optionally with a diffusion of small magnitude
+            "logqp": draw(st.sampled_from([False, False, True])),
+            "small_g": draw(st.sampled_from([None, None, 1e-3, 1e-4])),
+            # both declarations also offer the fused f_and_g and are solved with the drift renamed through `names`
+            # (names={'drift': 'h'}): whatever the library makes of that combination, it makes the same of both declarations
+            "fused_names": draw(st.sampled_from([False, False, False, True]))}
 
 
 def strategy(tier):
@@ -78,6 +86,24 @@ def enumerate_cases(tier):
                                    "entropy": rnd.randrange(2 ** 31 - 2)}
 
 
+    # logqp=True with a diffusion of ordinary and of small magnitude (scalar and additive declarations)
+    for k, (sde_type, method, nt, small) in enumerate([(st_, me_, nt_, sm_) for st_, me_ in (("ito", "euler"), ("stratonovich", "midpoint"))
+                                                      for nt_ in ("scalar", "additive") for sm_ in (None, 1e-4)]):
+        rnd = random.Random(seed * 6029 + k)
+        spec = {"sde_type": sde_type, "noise_type": nt, "d": 2, "m": 1 if nt == "scalar" else 2, "batch": 3, "hidden": 3,
+                "seed": rnd.randrange(2 ** 31), "tdep": True, "fscale": 1.0, "gscale": 0.7, "dtype": "float64", "rowdep": k % 2 == 0}
+        yield {"spec": spec, "method": method, "levy": "none", "outs": [0.4], "adaptive": False, "logqp": True, "small_g": small,
+               "time": {"t0": 0.1, "t1": 0.1 + 5 * 0.125, "dt": 0.125, "tdtype": "float64"}, "entropy": rnd.randrange(2 ** 31 - 2)}
+    for k, (sde_type, method) in enumerate((("ito", "euler"), ("stratonovich", "midpoint"), ("stratonovich", "heun"),
+                                            ("stratonovich", "euler_heun"), ("stratonovich", "log_ode"),
+                                            ("stratonovich", "reversible_heun"))):
+        for nt in ("diagonal", "scalar", "additive"):
+            rnd = random.Random(seed * 6037 + k * 3 + len(nt))
+            spec = {"sde_type": sde_type, "noise_type": nt, "d": 2, "m": 1 if nt == "scalar" else 2, "batch": 2, "hidden": 3,
+                    "seed": rnd.randrange(2 ** 31), "tdep": True, "fscale": 1.0, "gscale": 0.7, "dtype": "float64", "rowdep": False}
+            yield {"spec": spec, "method": method, "levy": "davie" if method == "log_ode" else "none", "outs": [0.4],
+                   "adaptive": False, "fused_names": True, "time": {"t0": 0.1, "t1": 0.1 + 4 * 0.125, "dt": 0.125, "tdtype": "float64"},
+                   "entropy": rnd.randrange(2 ** 31 - 2)}
     # a batch larger than 2^16 (Monte-Carlo sized): every row must still agree, also the last ones
     for k, (sde_type, method) in enumerate((("ito", "euler"), ("stratonovich", "midpoint"))):
         rnd = random.Random(seed * 6011 + k)
@@ -104,11 +130,43 @@ def run_case(case):
     sig = {"method": case["method"], "noise_type": spec["noise_type"], "levy": case["levy"]}
     outs = []
     kw = dict(adaptive=True, rtol=1e-2, atol=1e-2, dt_min=tm["dt"] / 16) if case.get("adaptive") else {}
-    for s in (sde, gen):
+    logqp = bool(case.get("logqp")) and spec["noise_type"] in ("scalar", "additive") and case["method"] != "reversible_heun" \
+        and not case.get("adaptive") and spec["batch"] <= 16
+    if logqp:
+        kw["logqp"] = True
+        if case.get("small_g"):
+            sde.gscale = sde.gscale * case["small_g"]
+    class Fused(torch.nn.Module):
+        def __init__(self, inner):
+            super().__init__()
+            self.inner = inner
+            self.noise_type, self.sde_type, self.spec = inner.noise_type, inner.sde_type, spec
+
+        def f(self, t, y):
+            return self.inner.f(t, y)
+
+        def g(self, t, y):
+            return self.inner.g(t, y)
+
+        def h(self, t, y):
+            return self.inner.h(t, y)
+
+        def f_and_g(self, t, y):
+            return self.inner.f(t, y), self.inner.g(t, y)
+
+    fused = bool(case.get("fused_names")) and not logqp
+    if fused:
+        kw["names"] = {"drift": "h"}
+    for s in ((Fused(sde), Fused(gen)) if fused else (sde, gen)):
         bm = sdes.make_bm(torchsde, spec, ts[0], ts[-1], case["entropy"], levy=case["levy"])
         with torch.no_grad():
             ys, _ = solve.run(torchsde, s, y0, ts, combo, tm["dt"], bm=bm, **kw)
         outs.append(ys)
+    lq_err = 0.0
+    if logqp:
+        (ya_, la_), (yb_, lb_) = outs
+        outs = [ya_, yb_]
+        lq_err = float((la_ - lb_).abs().max()) / max(float(la_.abs().max()), float(lb_.abs().max()), 1e-300)
     a, b = outs
     scale = max(1.0, float(a.abs().max()))
     e = float((a - b).abs().max()) / scale
@@ -117,7 +175,15 @@ def run_case(case):
               f"dtype={spec['dtype']}", "bit_identical" if torch.equal(a, b) else "differs_in_last_bits",
               "adaptive" if case.get("adaptive") else "fixed"] + (["batch>65535"] if spec["batch"] > 65535 else []) + (["per_sample_conditioning"] if spec.get("rowdep") else []) + (["stored_diffusion_tensor"] if spec.get("gstored") else [])
     fail = None
-    if not (e <= 1e3 * eps) or not bool(torch.isfinite(a).all()):
+    if fused:
+        labels.append("fused_interface+renamed_drift")
+    if logqp:
+        labels.append("logqp" + (f"+g*{case['small_g']}" if case.get("small_g") else ""))
+    if logqp and not lq_err <= 1e-6:
+        # both declarations compute |g^+ (f - h)|^2 from the same g (a least-squares solve: conditioning ~ eps * cond^2)
+        fail = Fail("special_vs_general:logqp", f"log-ratio returned with logqp=True for the {spec['noise_type']} declaration "
+                                                f"and for its general embedding disagree: rel {lq_err:.3e} ({case['method']})", sig)
+    elif not (e <= 1e3 * eps) or not bool(torch.isfinite(a).all()):
         fail = Fail("special_vs_general", f"{spec['noise_type']} declaration and its general embedding disagree with "
                                           f"{case['method']} (levy={case['levy']}): rel {e:.3e}", sig)
     return Result(nontrivial=steps >= 3 and (spec["d"] >= 2 or spec["noise_type"] == "additive"), labels=labels,
